@@ -126,6 +126,37 @@ def alg_sqrt(fr):
     return AlgSym(r.re, r.im)
 
 
+def _norm_poly(p):
+    """finish the rewriting s*s -> prime for the sqrt(prime) atoms (core stops after one atom when the radicand is constant)"""
+    ids = _alg_atom_ids()
+    if not any(len(m) != len(set(m)) for m in p.t):
+        return p
+    out = {}
+    for m, c in p.t.items():
+        if len(m) != len(set(m)):
+            keep = []
+            for a in sorted(set(m)):
+                k = m.count(a)
+                if a in ids:
+                    c = c * ids[a] ** (k // 2)
+                    keep += [a] * (k % 2)
+                else:
+                    keep += [a] * k
+            m = tuple(keep)
+        v = out.get(m, 0) + c
+        if v == 0:
+            out.pop(m, None)
+        else:
+            out[m] = v
+    return Poly(out)
+
+
+def norm_sym(x):
+    if not _CTX or "c17_alg_atoms" not in cur().by_key:
+        return x
+    return type(x)(_norm_poly(x.re), _norm_poly(x.im)) if isinstance(x, Sym) else x
+
+
 def _is_alg_const(x):
     ids = _alg_atom_ids()
     return all(a in ids for a in (x.re.atoms() | x.im.atoms()))
@@ -150,7 +181,7 @@ def alg_recip(x):
         return Sym(Poly.const(1 / v))
     aid = sorted(x.re.atoms())[0]
     xc = _flip(x, aid)
-    return xc * alg_recip(x * xc)
+    return norm_sym(xc * alg_recip(norm_sym(x * xc)))
 
 
 class AlgSym(Sym):
@@ -173,8 +204,8 @@ def _rewrap(name):
 
     def op(self, o):
         r = base(self, o)
-        if isinstance(r, Sym) and type(r) is Sym:
-            return AlgSym(r.re, r.im)
+        if isinstance(r, Sym):
+            return AlgSym(_norm_poly(r.re), _norm_poly(r.im)) if _CTX else AlgSym(r.re, r.im)
         return r
     op.__name__ = name
     return op
@@ -310,5 +341,962 @@ NP_OVERRIDES["linalg"] = ModProxy(np.linalg, {"norm": c17_norm})
 EXTRA = {"toqito.matrices.gen_pauli_z": {"exp": c17_exp}}
 
 
-def obligations(tier):
-    return []
+
+
+# ================================================================================================
+# trigonometric contract: sin/cos of a registered base angle are symbols on the unit circle
+# ================================================================================================
+def trig_base(x):
+    """register x as base angle: (cos x, sin x) = (c, s) with s*s rewritten to 1 - c*c; sin 2x = 2sc, cos 2x = c*c - s*s"""
+    c = cur()
+    reg = c.by_key.setdefault("c17_trig", {})
+    x = lift(x)
+    k = x.key()
+    if k in reg or x.is_const():
+        return
+    ca = c.new_atom("cos", "uf", key=("c17cos", k))
+    sa = c.new_atom("sin", "uf", key=("c17sin", k))
+    p = x.re
+    ca.evalf = lambda vals, p=p: math.cos(float(p.evalf(vals)))
+    sa.evalf = lambda vals, p=p: math.sin(float(p.evalf(vals)))
+    rew = c.by_key.setdefault("rewrites", {})
+    rew[sa.id] = ONE - Poly.atom(ca.id) * Poly.atom(ca.id)
+    c.side.append(z3.And(ca.z3 >= -1, ca.z3 <= 1, sa.z3 >= -1, sa.z3 <= 1))
+    c.stubs.add("sin/cos of the parameter angle: symbols (c, s) with s*s rewritten to 1 - c*c; double angle sin 2x = 2sc, "
+                "cos 2x = c*c - s*s (trigonometric contract)")
+    reg[k] = (Sym(Poly.atom(ca.id)), Sym(Poly.atom(sa.id)))
+
+
+def _trig_lookup(x):
+    reg = cur().by_key.get("c17_trig", {}) if _CTX else {}
+    if not reg or not isinstance(x, Sym):
+        return None
+    k = x.key()
+    if k in reg:
+        return reg[k]
+    h = (x * Fraction(1, 2)).key()
+    if h in reg:
+        c, s = reg[h]
+        return (c * c - s * s, 2 * s * c)
+    return None
+
+
+def _mk_trig(fname, idx):
+    def f(x, *a, **k):
+        if isinstance(x, Sym):
+            r = _trig_lookup(x)
+            if r is not None:
+                return r[idx]
+            return getattr(x, fname)()
+        if has_sym(x):
+            return _map(sarr(x), lambda v: f(lift(v)))
+        return getattr(np, fname)(x, *a, **k)
+    return f
+
+
+NP_OVERRIDES["cos"] = _mk_trig("cos", 0)
+NP_OVERRIDES["sin"] = _mk_trig("sin", 1)
+
+
+def cs(x):
+    """(cos x, sin x) for the oracle: the registered symbols, or numbers"""
+    if isinstance(x, Sym):
+        r = _trig_lookup(x)
+        if r is not None:
+            return r
+        return x.cos(), x.sin()
+    return math.cos(x), math.sin(x)
+
+
+# ================================================================================================
+# polymorphic helpers (symbolic constants / plain numbers)
+# ================================================================================================
+def rt(n):
+    """sqrt(n): exact algebraic number under a solver context, a double otherwise"""
+    return alg_sqrt(n) if (_CTX and _MODE["exact"]) else math.sqrt(n)
+
+
+def fr(p, q=1):
+    return Fraction(p, q) if _CTX else p / q
+
+
+def cj(x):
+    return x.conjugate()
+
+
+def iszero(x):
+    if isinstance(x, Sym):
+        return not x.re.t and not x.im.t
+    return x == 0
+
+
+def inner(u, v):
+    tot = 0
+    for a, b in zip(np.asarray(u).flat, np.asarray(v).flat):
+        if iszero(a) or iszero(b):
+            continue
+        tot = tot + cj(a) * b
+    return tot
+
+
+def gram(vs):
+    n = len(vs)
+    out = np.empty((n, n), dtype=object)
+    for i in range(n):
+        for j in range(n):
+            out[i, j] = inner(vs[i], vs[j])
+    return out
+
+
+def absq(a):
+    """entry-wise |x|^2"""
+    a = np.asarray(a, dtype=object)
+    out = np.empty(a.shape, dtype=object)
+    for idx in np.ndindex(a.shape):
+        x = a[idx]
+        v = x * cj(x)
+        out[idx] = v.real if not isinstance(v, (int, Fraction)) else v
+    return out
+
+
+def mm(A, B):
+    """matrix product with explicit loops that skip zeros"""
+    A, B = np.asarray(A, dtype=object), np.asarray(B, dtype=object)
+    n, k = A.shape
+    k2, m = B.shape
+    assert k == k2
+    rowsB = [[(j, B[l, j]) for j in range(m) if not iszero(B[l, j])] for l in range(k)]
+    out = np.empty((n, m), dtype=object)
+    for i in range(n):
+        acc = {}
+        for l in range(k):
+            a = A[i, l]
+            if iszero(a):
+                continue
+            for j, b in rowsB[l]:
+                acc[j] = acc[j] + a * b if j in acc else a * b
+        for j in range(m):
+            out[i, j] = acc.get(j, 0)
+    return out
+
+
+def dag(A):
+    A = np.asarray(A, dtype=object)
+    out = np.empty(A.shape[::-1], dtype=object)
+    for i in range(A.shape[0]):
+        for j in range(A.shape[1]):
+            out[j, i] = cj(A[i, j])
+    return out
+
+
+def scale(c, A):
+    A = np.asarray(A, dtype=object)
+    out = np.empty(A.shape, dtype=object)
+    for idx in np.ndindex(A.shape):
+        out[idx] = 0 if iszero(A[idx]) else c * A[idx]
+    return out
+
+
+def sub(A, B):
+    A, B = np.asarray(A, dtype=object), np.asarray(B, dtype=object)
+    assert A.shape == B.shape
+    out = np.empty(A.shape, dtype=object)
+    for idx in np.ndindex(A.shape):
+        out[idx] = A[idx] - B[idx]
+    return out
+
+
+def tr(A):
+    A = np.asarray(A, dtype=object)
+    tot = 0
+    for i in range(A.shape[0]):
+        tot = tot + A[i, i]
+    return tot
+
+
+def cell(x):
+    a = np.empty((1,), dtype=object)
+    a[0] = x
+    return a
+
+
+def dense(x):
+    return x.toarray() if hasattr(x, "toarray") else x
+
+
+def shape_arr(x):
+    return np.asarray(np.shape(x))
+
+
+def ident(n):
+    return np.identity(n)
+
+
+def unit_vec(n, k):
+    v = np.zeros((n, 1))
+    v[k, 0] = 1
+    return v
+
+
+def swap_mat(d):
+    """W|i,j> = |j,i> written out"""
+    W = np.zeros((d * d, d * d))
+    for i in range(d):
+        for j in range(d):
+            W[j * d + i, i * d + j] = 1
+    return W
+
+
+def maxent_proj(d):
+    """|psi+><psi+| with psi+ = sum_i |ii>/sqrt(d): entries 1/d"""
+    P = np.zeros((d * d, d * d), dtype=object)
+    for i in range(d):
+        for j in range(d):
+            P[i * d + i, j * d + j] = Fraction(1, d) if _CTX else 1 / d
+    return P
+
+
+def pt_own(M, dA, dB, which):
+    """partial transpose written out: which=1 transposes the second factor"""
+    M = np.asarray(M, dtype=object)
+    out = np.empty(M.shape, dtype=object)
+    for i in range(dA):
+        for j in range(dB):
+            for k in range(dA):
+                for l in range(dB):
+                    if which == 1:
+                        out[i * dB + l, k * dB + j] = M[i * dB + j, k * dB + l]
+                    else:
+                        out[k * dB + j, i * dB + l] = M[i * dB + j, k * dB + l]
+    return out
+
+
+# ---- comparison ---------------------------------------------------------------------------------
+_TOLZ = z3.RealVal(str(TOL))
+
+
+def _zero(d, how):
+    r = SymBool(True)
+    for p in (d.re, d.im):
+        if p.is_zero():
+            continue
+        if how == "exact":
+            if p.is_const():
+                return SymBool(False)
+            r = r & SymBool(p.to_z3() == 0)
+        else:
+            if p.is_const():
+                if abs(p.cval()) > TOL:
+                    return SymBool(False)
+            else:
+                for m in p.t:
+                    _bound_mono(m)
+                z = p.to_z3()
+                r = r & SymBool(z3.And(z <= _TOLZ, z >= -_TOLZ))
+    return r
+
+
+def near(a, b, how):
+    """exact: equal as algebraic numbers (decided on the normal form / by z3); tol: |difference| <= 1e-9 in re and im"""
+    if isinstance(a, (list, tuple)) and isinstance(b, (list, tuple)):
+        if len(a) != len(b):
+            return False
+        r = True
+        for x, y in zip(a, b):
+            e = near(x, y, how)
+            if isinstance(e, bool):
+                if not e:
+                    return False
+                continue
+            if e.const is False:
+                return False
+            r = e if r is True else r & e
+        return r
+    A, B = np.asarray(dense(a), dtype=object), np.asarray(dense(b), dtype=object)
+    if A.shape != B.shape:
+        return False
+    if not _CTX:
+        return bool(np.allclose(A.astype(complex), B.astype(complex), rtol=0, atol=1e-9))
+    conj = []
+    for x, y in zip(A.flat, B.flat):
+        d = norm_sym(lift(x) - lift(y))
+        z = _zero(d, how)
+        if z.const is False:
+            return SymBool(False)
+        if z.const is None:
+            conj.append(z)
+    return And(*conj)
+
+
+def _neg(exp):
+    """wrong oracle for the negative control: first cell of the first array off by one"""
+    if isinstance(exp, (list, tuple)):
+        return [_neg(exp[0])] + list(exp[1:])
+    a = np.array(np.asarray(dense(exp), dtype=object), dtype=object, copy=True)
+    a.flat[0] = a.flat[0] + 1
+    return a
+
+
+LIFTING = {"exact": "exact-algebraic (real code run over Q(i, sqrt primes); identities exact)",
+           "mixed": "algebraic entries with double factors such as 1/3: |residual| <= 1e-9 decided over the exact values",
+           "float": "float-lifted: |residual| <= 1e-9 over the exact binary rationals of the returned doubles"}
+
+
+def cob(name, cfg, call, expect, how="exact", objzeros=(), weight=1, exc_post=None, extra=None, flags=None, post=None):
+    """obligation about a parameter-free constructor family"""
+    cfg = dict(cfg)
+    cfg["lifting"] = LIFTING[how].split(":")[0].split(" (")[0]
+    ex = dict(EXTRA)
+    if extra:
+        ex.update(extra)
+
+    def build(b):
+        return {}
+
+    def _call(i):
+        with exact_mode(how != "float"):
+            return call()
+
+    def _oracle(i):
+        with exact_mode(how != "float"):
+            return expect()
+
+    def _post(res, exp, i):
+        return near(res, exp, how)
+    return Obligation(name, cfg, build, _call, _oracle if expect is not None else None, post=post or _post, neg=_neg,
+                      objzeros=objzeros, extra_patch=ex, weight=weight, exc_post=exc_post,
+                      neg_control=expect is not None)
+
+
+def pob(name, cfg, build, call, oracle, extra=None, flags=(), **kw):
+    """obligation with symbolic parameters; exact algebraic constants switched on"""
+    ex = dict(EXTRA)
+    if extra:
+        ex.update(extra)
+
+    def _call(i):
+        with exact_mode(True):
+            old = {f: _MODE.get(f) for f in flags}
+            for f in flags:
+                _MODE[f] = True
+            try:
+                return call(i)
+            finally:
+                _MODE.update(old)
+
+    def _oracle(i):
+        with exact_mode(True):
+            return oracle(i)
+    return Obligation(name, cfg, build, _call, _oracle if oracle is not None else None, extra_patch=ex, **kw)
+
+
+def rejects(name, cfg, f, exc=ValueError):
+    """documented rejection: the call must raise `exc`"""
+    def build(b):
+        return {}
+
+    def call(i):
+        return f()
+
+    def exc_post(e, i):
+        return isinstance(e, exc)
+
+    def post(res, exp, i):
+        return False
+    return Obligation(name, cfg, build, call, None, post=post, exc_post=exc_post, neg_control=False, extra_patch=dict(EXTRA))
+
+
+# ================================================================================================
+# (B) parameter-free states
+# ================================================================================================
+def _imports():
+    import toqito.states as S
+    import toqito.matrices as Mx
+    from toqito.channels import partial_trace, partial_transpose
+    return S, Mx, partial_trace, partial_transpose
+
+
+def outer(v):
+    v = np.asarray(v, dtype=object).reshape(-1, 1)
+    return mm(v, dag(v))
+
+
+def marginals(rho, d, partial_trace):
+    """both reduced states through the real partial_trace"""
+    return [np.asarray(partial_trace(rho, [0], [d, d])), np.asarray(partial_trace(rho, [1], [d, d]))]
+
+
+def view(a):
+    """object array -> SymArray when it holds symbols (so that toqito code sees an ndarray it can dispatch on)"""
+    a = np.asarray(a)
+    if a.dtype == object:
+        if has_sym(a):
+            return a.view(SymArray)
+        return a.astype(complex) if any(isinstance(x, complex) for x in a.flat) else a.astype(float)
+    return a
+
+
+def ob_basis(d):
+    from toqito.states import basis
+    from toqito.matrices import standard_basis
+
+    def call():
+        vs = [basis(d, p) for p in range(d)]
+        sb = standard_basis(d)
+        sbf = standard_basis(d, flatten=True)
+        return [np.hstack(vs), np.hstack(sb), np.stack(sbf, axis=1), shape_arr(vs[0]), shape_arr(sb[0]), shape_arr(sbf[0]),
+                np.asarray([len(sb), len(sbf)])]
+
+    def expect():
+        return [ident(d), ident(d), ident(d), np.asarray((d, 1)), np.asarray((d, 1)), np.asarray((d,)), np.asarray([d, d])]
+    return cob("basis_and_standard_basis.are_the_canonical_kets", {"d": d}, call, expect)
+
+
+def ob_bb84():
+    from toqito.states import bb84
+
+    def call():
+        (e0, e1), (ep, em) = bb84()
+        vs = [e0, e1, ep, em]
+        return [absq(gram(vs)), np.hstack([e0, e1]), scale(rt(2), np.hstack([ep, em]))]
+
+    def expect():
+        h = fr(1, 2)
+        return [np.array([[1, 0, h, h], [0, 1, h, h], [h, h, 1, 0], [h, h, 0, 1]], dtype=object), ident(2),
+                np.array([[1, 1], [1, -1]])]
+    return cob("bb84.two_orthonormal_mutually_unbiased_bases", {}, call, expect)
+
+
+def ob_bell():
+    S, Mx, partial_trace, _ = _imports()
+
+    def call():
+        us = [S.bell(k) for k in range(4)]
+        res = [gram(us), scale(rt(2), np.hstack(us))]
+        for u in us:
+            res += marginals(view(outer(u)), 2, partial_trace)
+        res.append(shape_arr(us[0]))
+        return res
+
+    def expect():
+        closed = np.array([[1, 1, 0, 0], [0, 0, 1, 1], [0, 0, 1, -1], [1, -1, 0, 0]])
+        return [ident(4), closed] + [scale(fr(1, 2), ident(2))] * 8 + [np.asarray((4, 1))]
+    return cob("bell.orthonormal_basis_closed_form_maximally_mixed_marginals", {}, call, expect)
+
+
+def ob_gen_bell(d, how):
+    S, Mx, partial_trace, _ = _imports()
+
+    def call():
+        Gs = [np.asarray(S.gen_bell(k1, k2, d)) for k1 in range(d) for k2 in range(d)]
+        n = len(Gs)
+        hs = np.empty((n, n), dtype=object)
+        for a in range(n):
+            for b in range(n):
+                hs[a, b] = inner(Gs[a], Gs[b])       # Tr(G_a^dagger G_b) = |<phi_a|phi_b>|^2
+        res = [hs, np.asarray([tr(G) for G in Gs], dtype=object)]
+        proj, herm, marg = [], [], []
+        for G in Gs:
+            proj.append(sub(mm(G, G), G))
+            herm.append(sub(G, dag(G)))
+            marg += marginals(view(G), d, partial_trace)
+        return res + [np.stack(proj), np.stack(herm), np.stack([np.asarray(m, dtype=object) for m in marg])]
+
+    def expect():
+        n = d * d
+        z = np.zeros((n, n, n))
+        return [ident(n), np.ones(n), z, z, np.stack([scale(fr(1, d), ident(d))] * (2 * n))]
+    return cob("gen_bell.orthonormal_basis_of_maximally_entangled_projectors", {"d": d}, call, expect, how, weight=d ** 3)
+
+
+def ob_gen_bell_is_bell():
+    from toqito.states import bell, gen_bell
+
+    def call():
+        return [np.stack([np.asarray(gen_bell(k1, k2, 2)) for k1 in range(2) for k2 in range(2)])]
+
+    def expect():
+        return [np.stack([outer(bell(k)) for k in range(4)])]
+    return cob("gen_bell.dimension_two_recovers_the_bell_states_as_documented", {}, call, expect)
+
+
+def ob_max_entangled(d):
+    S, Mx, partial_trace, _ = _imports()
+
+    def call():
+        v = S.max_entangled(d)
+        w = S.max_entangled(d, False, False)
+        return [scale(rt(d), v), cell(inner(v, v)), w, shape_arr(v)] + marginals(view(outer(v)), d, partial_trace)
+
+    def expect():
+        ind = np.zeros((d * d, 1))
+        for i in range(d):
+            ind[i * d + i, 0] = 1
+        return [ind, cell(1), ind, np.asarray((d * d, 1))] + [scale(fr(1, d), ident(d))] * 2
+    return cob("max_entangled.closed_form_norm_and_maximally_mixed_marginals", {"d": d}, call, expect)
+
+
+def ob_max_entangled_sparse(d):
+    from toqito.states import max_entangled
+
+    def call():
+        return [dense(max_entangled(d, True, True)), dense(max_entangled(d, True, False))]
+
+    def expect():
+        return [max_entangled(d, False, True), max_entangled(d, False, False)]
+    return cob("max_entangled.sparse_form_equals_dense_form", {"d": d}, call, expect, "float")
+
+
+def ob_max_mixed(d):
+    from toqito.states import max_mixed
+    how = "exact" if d & (d - 1) == 0 else "float"
+
+    def call():
+        r = max_mixed(d)
+        return [r, cell(tr(r)), dense(max_mixed(d, is_sparse=True))]
+
+    def expect():
+        return [scale(fr(1, d), ident(d)), cell(1), scale(fr(1, d), ident(d))]
+    return cob("max_mixed.is_identity_over_d", {"d": d}, call, expect, how)
+
+
+def ghz_index(d, n, i):
+    return sum(i * d ** k for k in range(n))
+
+
+def ob_ghz(d, n):
+    from toqito.states import ghz
+
+    def call():
+        v = ghz(d, n)
+        return [scale(rt(d), v), cell(inner(v, v)), shape_arr(v)]
+
+    def expect():
+        ind = np.zeros((d ** n, 1))
+        for i in range(d):
+            idx = 0
+            for _ in range(n):
+                idx = idx * d + i          # |i,i,...,i>
+            ind[idx, 0] = 1
+        return [ind, cell(1), np.asarray((d ** n, 1))]
+    return cob("ghz.default_is_equal_superposition_of_the_d_diagonal_kets", {"d": d, "parties": n}, call, expect,
+               objzeros=("toqito.states.ghz",))
+
+
+def popcount(x):
+    return bin(x).count("1")
+
+
+def ob_dicke(n, k):
+    from toqito.states import dicke
+    N = math.comb(n, k)
+
+    def perm_index(idx, a, b):
+        """index after swapping qubits a and b"""
+        ba, bb = (idx >> a) & 1, (idx >> b) & 1
+        if ba != bb:
+            idx ^= (1 << a) | (1 << b)
+        return idx
+
+    def call():
+        v = dicke(n, k)
+        dm = dicke(n, k, return_dm=True)
+        res = [scale(rt(N), v), cell(inner(v, v)), sub(np.asarray(dm, dtype=object), outer(v)), shape_arr(v)]
+        va = np.asarray(v, dtype=object)
+        for a in range(n - 1):              # adjacent transpositions generate the symmetric group
+            pv = np.empty(va.shape, dtype=object)
+            for idx in range(2 ** n):
+                pv[perm_index(idx, a, a + 1)] = va[idx]
+            res.append(sub(pv, va))
+        return res
+
+    def expect():
+        ind = np.array([1.0 if popcount(i) == k else 0.0 for i in range(2 ** n)])
+        z = np.zeros(2 ** n)
+        return [ind, cell(1), np.zeros((2 ** n, 2 ** n)), np.asarray((2 ** n,))] + [z] * (n - 1)
+    return cob("dicke.weight_k_support_equal_amplitudes_permutation_symmetric", {"qubits": n, "excitations": k}, call, expect,
+               objzeros=("toqito.states.dicke",), weight=2 ** n // 4)
+
+
+def ob_w_state(n):
+    from toqito.states import w_state
+
+    def call():
+        return [w_state(n)]
+
+    def post(res, exp, i):
+        """support {2^i}, equal amplitudes (permutation symmetry), amplitude = 1/sqrt(n) up to the documented 4 decimals"""
+        if exp is not None:   # negative control
+            return near(res, exp, "float")
+        w = np.asarray(res[0])
+        if w.shape != (2 ** n, 1):
+            return False
+        vals = [Fraction(float(x)) for x in w[:, 0]]
+        amp = vals[1]
+        ok = amp > 0
+        for idx, v in enumerate(vals):
+            ok = ok and (v == amp if popcount(idx) == 1 else v == 0)
+        dl = Fraction(51, 10 ** 6)
+        ok = ok and (amp - dl) ** 2 * n <= 1 <= (amp + dl) ** 2 * n
+        return bool(ok)
+    o = cob("w_state.single_excitation_support_equal_amplitudes_4_decimals", {"qubits": n}, call, None, "float", post=post)
+    return o
+
+
+def ob_w_state_norm(n):
+    from toqito.states import w_state
+
+    def call():
+        w = w_state(n)
+        return [cell(inner(w, w))]
+
+    def expect():
+        return [cell(1)]
+    return cob("w_state.has_unit_norm", {"qubits": n}, call, expect, "float")
+
+
+_DOMINO = [((0, 1, 0), (0, 1, 0), 1), ((1, 0, 0), (1, 1, 0), 2), ((1, 0, 0), (1, -1, 0), 2), ((0, 0, 1), (0, 1, 1), 2),
+           ((0, 0, 1), (0, 1, -1), 2), ((0, 1, 1), (1, 0, 0), 2), ((0, 1, -1), (1, 0, 0), 2), ((1, 1, 0), (0, 0, 1), 2),
+           ((1, -1, 0), (0, 0, 1), 2)]
+_TILE = [((1, 0, 0), (1, -1, 0), 2), ((1, -1, 0), (0, 0, 1), 2), ((0, 0, 1), (0, 1, -1), 2), ((0, 1, -1), (1, 0, 0), 2),
+         ((1, 1, 1), (1, 1, 1), 9)]
+
+
+def ob_product_basis(which):
+    from toqito.states import domino, tile
+    f, table = (domino, _DOMINO) if which == "domino" else (tile, _TILE)
+    how = "exact" if which == "domino" else "mixed"
+
+    def call():
+        vs = [f(k) for k in range(len(table))]
+        scaled = [scale(rt(sq), v) if math.isqrt(sq) ** 2 != sq else scale(math.isqrt(sq), v) for v, (_, _, sq) in zip(vs, table)]
+        return [gram(vs), np.hstack(scaled), shape_arr(vs[0])]
+
+    def expect():
+        cols = [np.kron(np.array(a).reshape(3, 1), np.array(b).reshape(3, 1)) for a, b, _ in table]
+        return [ident(len(table)), np.hstack(cols), np.asarray((9, 1))]
+    return cob(f"{which}.orthonormal_product_states", {}, call, expect, how)
+
+
+def ob_trine():
+    from toqito.states import trine
+
+    def call():
+        us = trine()
+        frame = None
+        for u in us:
+            o = outer(u)
+            frame = o if frame is None else frame + o
+        return [gram(us), frame, np.hstack([us[0], scale(-2, us[1]), scale(-2, us[2])])]
+
+    def expect():
+        h = fr(-1, 2)
+        s3 = rt(3)
+        closed = np.empty((2, 3), dtype=object)
+        closed[0, :] = [1, 1, 1]
+        closed[1, :] = [0, s3, -s3]
+        return [np.array([[1, h, h], [h, 1, h], [h, h, 1]], dtype=object), scale(fr(3, 2), ident(2)), closed]
+    return cob("trine.three_unit_vectors_at_120_degrees_tight_frame", {}, call, expect)
+
+
+def ob_singlet(d):
+    from toqito.states import singlet, bell
+    how = "exact" if d == 2 else "float"
+
+    def call():
+        s = singlet(d)
+        res = [scale(d * d - d, s), cell(tr(s))]
+        if d == 2:
+            res.append(sub(np.asarray(s, dtype=object), outer(bell(3))))
+        return res
+
+    def expect():
+        return [sub(ident(d * d), swap_mat(d)), cell(1)] + ([np.zeros((4, 4))] if d == 2 else [])
+    return cob("singlet.is_normalised_antisymmetric_projector", {"d": d}, call, expect, how)
+
+
+def all_matchings(items):
+    if not items:
+        yield []
+        return
+    a = items[0]
+    for k in range(1, len(items)):
+        b = items[k]
+        rest = items[1:k] + items[k + 1:]
+        for m in all_matchings(rest):
+            yield [(a, b)] + m
+
+
+def ob_brauer(d, p):
+    from toqito.states import brauer
+
+    def call():
+        B = brauer(d, p)
+        cols = {tuple(int(round(float(x))) for x in B[:, c]) for c in range(B.shape[1])}
+        want = set()
+        for m in all_matchings(list(range(2 * p))):
+            col = []
+            for multi in itertools.product(range(d), repeat=2 * p):
+                col.append(1 if all(multi[a] == multi[b] for a, b in m) else 0)
+            want.add(tuple(col))
+        # every column is (exactly) the unnormalised state of one perfect matching, every matching occurs once
+        exactness = np.asarray([float(np.max(np.abs(B - np.round(B))))])
+        return [np.asarray([B.shape[0], B.shape[1], len(cols), len(cols & want), len(want)]), exactness]
+
+    def expect():
+        n = math.factorial(2 * p) // (math.factorial(p) * 2 ** p)
+        return [np.asarray([d ** (2 * p), n, n, n, n]), np.asarray([0.0])]
+    return cob("brauer.columns_are_the_perfect_matching_states_each_once", {"d": d, "p": p}, call, expect)
+
+
+def ob_mub(d):
+    from toqito.states import mutually_unbiased_basis
+
+    def call():
+        vs = mutually_unbiased_basis(d)
+        return [np.asarray([len(vs)]), absq(gram(vs))]
+
+    def expect():
+        n = d * (d + 1)
+        G = np.empty((n, n), dtype=object)
+        for a in range(n):
+            for b in range(n):
+                G[a, b] = (1 if a == b else 0) if a // d == b // d else fr(1, d)
+        return [np.asarray([n]), G]
+    return cob("mutually_unbiased_basis.orthonormal_within_unbiased_across", {"d": d}, call, expect, "float", weight=d * d)
+
+
+# ================================================================================================
+# (B) standard matrices
+# ================================================================================================
+def hs_gram(Ms):
+    n = len(Ms)
+    out = np.empty((n, n), dtype=object)
+    for a in range(n):
+        for b in range(n):
+            out[a, b] = inner(Ms[a], Ms[b])
+    return out
+
+
+def omega(d):
+    """primitive d-th root of unity exp(2 pi i / d) for the oracle"""
+    if _CTX and _MODE["exact"] and 12 % d == 0:
+        return _w12(12 // d)
+    return cmath.exp(2j * cmath.pi / d)
+
+
+def wpow(w, k):
+    r = 1
+    for _ in range(k):
+        r = r * w
+    return r
+
+
+PAULI_CLOSED = {0: [[1, 0], [0, 1]], 1: [[0, 1], [1, 0]], 2: [[0, -1j], [1j, 0]], 3: [[1, 0], [0, -1]]}
+
+
+def ob_pauli_single():
+    from toqito.matrices import pauli
+
+    def call():
+        P = [np.asarray(pauli(k)) for k in range(4)]
+        names = [np.asarray(pauli(s)) for s in ["I", "X", "Y", "Z", "x", "y", "z"]]
+        sp = [dense(pauli(k, True)) for k in range(4)]
+        alg = [sub(mm(P[1], P[2]), scale(1j, P[3])), sub(mm(P[2], P[3]), scale(1j, P[1])), sub(mm(P[3], P[1]), scale(1j, P[2]))]
+        return [hs_gram(P), np.stack(P), np.stack(names), np.stack(sp), np.stack([mm(p, p) for p in P]), np.stack(alg)]
+
+    def expect():
+        C = [np.array(PAULI_CLOSED[k]) for k in range(4)]
+        return [scale(2, ident(2 * 2)), np.stack(C), np.stack([C[0], C[1], C[2], C[3], C[1], C[2], C[3]]), np.stack(C),
+                np.stack([ident(2)] * 4), np.zeros((3, 2, 2))]
+    return cob("pauli.closed_forms_trace_orthogonal_and_algebra", {}, call, expect)
+
+
+def ob_pauli_strings(n):
+    from toqito.matrices import pauli
+
+    def call():
+        idxs = list(itertools.product(range(4), repeat=n))
+        Ps = [np.asarray(pauli(list(ix))) for ix in idxs]
+        own = [kron_all([np.array(PAULI_CLOSED[k]) for k in ix]) for ix in idxs]
+        return [hs_gram(Ps), np.stack(Ps), np.asarray(dense(pauli([1, 3][:n] + [2] * (n - 2), True)))]
+
+    def expect():
+        idxs = list(itertools.product(range(4), repeat=n))
+        own = [kron_all([np.array(PAULI_CLOSED[k]) for k in ix]) for ix in idxs]
+        return [scale(2 ** n, ident(4 ** n)), np.stack(own), kron_all([np.array(PAULI_CLOSED[k]) for k in ([1, 3][:n] + [2] * (n - 2))])]
+    return cob("pauli.n_qubit_strings_are_tensor_products_and_trace_orthogonal", {"qubits": n}, call, expect, weight=4 ** n)
+
+
+def ob_weyl(d, how):
+    """clock/shift closed forms, Weyl relation, Fourier intertwiner, unitarity"""
+    from toqito.matrices import fourier, gen_pauli_x, gen_pauli_z
+
+    def call():
+        X, Z, F = np.asarray(gen_pauli_x(d)), np.asarray(gen_pauli_z(d)), np.asarray(fourier(d))
+        w = omega(d)
+        Fd = dag(F)
+        return [X, Z, scale(rt(d), F), sub(mm(Z, X), scale(w, mm(X, Z))), sub(mm(mm(F, X), Fd), Z), mm(F, Fd), mm(X, dag(X)),
+                mm(Z, dag(Z)), shape_arr(F)]
+
+    def expect():
+        w = omega(d)
+        Xc = np.zeros((d, d))
+        Zc = np.zeros((d, d), dtype=object)
+        Fc = np.empty((d, d), dtype=object)
+        for j in range(d):
+            Xc[(j + 1) % d, j] = 1            # X|j> = |j+1 mod d>
+            Zc[j, j] = wpow(w, j)             # Z|j> = w^j |j>
+            for k in range(d):
+                Fc[j, k] = wpow(w, (j * k) % d)
+        z = np.zeros((d, d))
+        return [Xc, Zc, Fc, z, z, ident(d), ident(d), ident(d), np.asarray((d, d))]
+    return cob("clock_shift_fourier.closed_forms_weyl_relation_intertwiner_unitarity", {"d": d}, call, expect, how)
+
+
+def ob_gen_pauli(d, how):
+    from toqito.matrices import gen_pauli, gen_pauli_x, gen_pauli_z
+
+    def call():
+        Ws = [np.asarray(gen_pauli(k1, k2, d)) for k1 in range(d) for k2 in range(d)]
+        X, Z = np.asarray(gen_pauli_x(d)), np.asarray(gen_pauli_z(d))
+        own = []
+        for k1 in range(d):
+            for k2 in range(d):
+                m = ident(d)
+                for _ in range(k1):
+                    m = mm(m, X)
+                for _ in range(k2):
+                    m = mm(m, Z)
+                own.append(m)
+        return [hs_gram(Ws), np.stack([sub(a, b) for a, b in zip(Ws, own)]), np.stack([mm(W, dag(W)) for W in Ws])]
+
+    def expect():
+        n = d * d
+        return [scale(d, ident(n)), np.zeros((n, d, d)), np.stack([ident(d)] * n)]
+    return cob("gen_pauli.is_X_pow_k1_Z_pow_k2_unitary_trace_orthogonal_basis", {"d": d}, call, expect, how, weight=d ** 3)
+
+
+GM_CLOSED = [
+    [[1, 0, 0], [0, 1, 0], [0, 0, 1]], [[0, 1, 0], [1, 0, 0], [0, 0, 0]], [[0, -1j, 0], [1j, 0, 0], [0, 0, 0]],
+    [[1, 0, 0], [0, -1, 0], [0, 0, 0]], [[0, 0, 1], [0, 0, 0], [1, 0, 0]], [[0, 0, -1j], [0, 0, 0], [1j, 0, 0]],
+    [[0, 0, 0], [0, 0, 1], [0, 1, 0]], [[0, 0, 0], [0, 0, -1j], [0, 1j, 0]]]
+
+
+def ob_gell_mann():
+    from toqito.matrices import gell_mann
+
+    def call():
+        L = [np.asarray(gell_mann(k)) for k in range(9)]
+        sp = [np.asarray(dense(gell_mann(k, True)), dtype=object) for k in range(8)]   # index 8 holds symbols: dense only
+        return [hs_gram(L), np.stack(L[:8]), scale(rt(3), L[8]), np.stack([sub(l, dag(l)) for l in L]), np.stack(sp)]
+
+    def expect():
+        g = scale(2, ident(9))
+        g[0, 0] = 3
+        return [g, np.stack([np.array(m) for m in GM_CLOSED]), np.diag([1, 1, -2]), np.zeros((9, 3, 3)),
+                np.stack([np.array(m) for m in GM_CLOSED])]
+    return cob("gell_mann.closed_forms_hermitian_trace_orthogonal", {}, call, expect)
+
+
+def ob_gen_gell_mann(d):
+    from toqito.matrices import gen_gell_mann, gell_mann, pauli
+
+    def call():
+        pairs = [(a, b) for a in range(d) for b in range(d)]
+        G = [np.asarray(gen_gell_mann(a, b, d)) for a, b in pairs]
+        res = [hs_gram(G), np.stack([sub(g, dag(g)) for g in G])]
+        # symmetric / antisymmetric / diagonal closed forms
+        offd = []
+        for (a, b), g in zip(pairs, G):
+            if a != b:
+                offd.append(g)
+        res.append(np.stack(offd))
+        diag = []
+        for k in range(1, d):
+            g = G[pairs.index((k, k))]
+            diag.append(scale(rt(k * (k + 1) // 2), g))          # sqrt(k(k+1)/2) * G_kk = diag(1,...,1,-k,0,...)
+        res.append(np.stack(diag))
+        if d == 2:
+            res.append(np.stack([sub(G[pairs.index(p)], np.asarray(pauli(k))) for p, k in [((0, 0), 0), ((0, 1), 1), ((1, 0), 2), ((1, 1), 3)]]))
+        if d == 3:
+            order = [(0, 0), (0, 1), (1, 0), (1, 1), (0, 2), (2, 0), (1, 2), (2, 1), (2, 2)]
+            res.append(np.stack([sub(G[pairs.index(p)], np.asarray(gell_mann(k))) for k, p in enumerate(order)]))
+        return res
+
+    def expect():
+        pairs = [(a, b) for a in range(d) for b in range(d)]
+        g = scale(2, ident(d * d))
+        g[0, 0] = d
+        res = [g, np.zeros((d * d, d, d))]
+        offd = []
+        for a, b in pairs:
+            if a == b:
+                continue
+            m = np.zeros((d, d), dtype=complex)
+            if a < b:
+                m[a, b] = m[b, a] = 1
+            else:
+                m[a, b] = 1j
+                m[b, a] = -1j
+            offd.append(m)
+        res.append(np.stack(offd))
+        res.append(np.stack([np.diag([1] * k + [-k] + [0] * (d - k - 1)) for k in range(1, d)]))
+        if d == 2:
+            res.append(np.zeros((4, 2, 2)))
+        if d == 3:
+            res.append(np.zeros((9, 3, 3)))
+        return res
+    return cob("gen_gell_mann.hermitian_trace_orthogonal_basis_closed_forms", {"d": d}, call, expect, weight=d ** 3)
+
+
+def ob_hadamard(n):
+    from toqito.matrices import hadamard
+    how = "exact" if n % 2 == 0 else "float"
+
+    def call():
+        H = np.asarray(hadamard(n))
+        N = 2 ** n
+        sq = absq(H)
+        signs = np.array([[1 if float(np.real(H[i, j])) > 0 else -1 for j in range(N)] for i in range(N)])
+        return [mm(H, dag(H)), scale(N, sq), signs, shape_arr(H)]
+
+    def expect():
+        N = 2 ** n
+        signs = np.array([[(-1) ** popcount(i & j) for j in range(N)] for i in range(N)])
+        return [ident(N), np.ones((N, N)), signs, np.asarray((N, N))]
+    return cob("hadamard.sign_pattern_entries_and_unitarity", {"n": n}, call, expect, how, weight=4 ** n // 4)
+
+
+def ob_cnot():
+    from toqito.matrices import cnot
+
+    def call():
+        C = np.asarray(cnot())
+        return [C, mm(C, dag(C))]
+
+    def expect():
+        M = np.zeros((4, 4))
+        for a in range(2):
+            for b in range(2):
+                M[2 * a + (a ^ b), 2 * a + b] = 1        # |a,b> -> |a, a xor b>
+        return [M, ident(4)]
+    return cob("cnot.is_the_controlled_not_permutation", {}, call, expect)
+
+
+def ob_cyclic(n):
+    from toqito.matrices import cyclic_permutation_matrix
+
+    def call():
+        Ps = [np.asarray(cyclic_permutation_matrix(n, k)) for k in range(0, n + 2)]
+        return [np.stack(Ps), np.stack([mm(P, dag(P)) for P in Ps]), np.asarray(cyclic_permutation_matrix(n))]
+
+    def expect():
+        out = []
+        for k in range(0, n + 2):
+            M = np.zeros((n, n))
+            for j in range(n):
+                M[(j + k) % n, j] = 1                    # |j> -> |j+k mod n>
+            out.append(M)
+        return [np.stack(out), np.stack([ident(n)] * (n + 2)), out[1]]
+    return cob("cyclic_permutation_matrix.is_kth_power_of_the_cyclic_shift", {"n": n}, call, expect)
